@@ -8,7 +8,7 @@ Two kinds of entries (DESIGN section 7):
 """
 import z3
 
-from .core import (I, R, B, A2, L2, S2, ARef, ORef, LRef, Tup, StrV, NoneV, NONE, DictV, FuncV, ModV, SeqV, ArrData, ListData,
+from .core import (I, R, B, A2, L2, S2, MaskedV, ARef, ORef, LRef, Tup, StrV, NoneV, NONE, DictV, FuncV, ModV, SeqV, ArrData, ListData,
                    Undecided, lit, real, as_int, is_z3, zabs, zmax, zmin, coerce, truth)
 
 AR = z3.ArraySort(I, R)
@@ -243,6 +243,8 @@ def _np_where(ex, st, args, kw, node):
 
 def _reduce(fn):
     def f(ex, st, args, kw, node):
+        if isinstance(args[0], MaskedV) and fn is SUM:
+            return _masked_sum(ex, st, args[0], node)
         d = ex.arr(st, args[0])
         if d.rank != 1 or kw:
             raise Undecided("reduction with axis / rank 2")
@@ -285,6 +287,8 @@ def facts_argext(data, n, r, is_min):
 
 def _np_ext(is_min):
     def f(ex, st, args, kw, node):
+        if isinstance(args[0], MaskedV):
+            return _masked_ext(ex, st, args[0], is_min, node)
         d = ex.arr(st, args[0])
         if d.rank != 1 or kw or d.elem not in ("real", "int"):
             raise Undecided("min/max with axis / rank 2")
@@ -323,7 +327,67 @@ def facts_argmax(data, n):
 
 
 def compress(ex, st, v, mask, node):
-    raise Undecided("boolean-mask indexing (compress) is specified through contracts, not executed")
+    dv, dm = ex.arr(st, v), ex.arr(st, mask)
+    if not z3.eq(z3.simplify(dv.shape[0]), z3.simplify(dm.shape[0])):
+        ex.safe(st, "mask-length", dv.shape[0] == dm.shape[0], node)
+    return MaskedV(v, mask)
+
+
+def _masked_sum(ex, st, mv, node):
+    dv, dm = ex.arr(st, mv.arr), ex.arr(st, mv.mask)
+    if dv.elem != "bool":
+        raise Undecided("sum over a boolean-mask selection of non-boolean values")
+    if ex.spec_mode:
+        raise Undecided("np.sum of a selection inside a specification")
+    c = ex.fresh("count", I)
+    k = z3.Int("k!ms")
+    n = dv.shape[0]
+    st.pc += [c >= 0, (c > 0) == z3.Exists([k], z3.And(k >= 0, k < n, z3.Select(dm.data, k), z3.Select(dv.data, k)))]
+    return c
+
+
+def _masked_ext(ex, st, mv, is_min, node):
+    dv, dm = ex.arr(st, mv.arr), ex.arr(st, mv.mask)
+    if ex.spec_mode:
+        raise Undecided("max/min of a selection inside a specification")
+    k = z3.Int("k!mx")
+    n = dv.shape[0]
+    # numpy raises ValueError on an empty selection
+    ex.safe(st, "selection-nonempty", z3.Exists([k], z3.And(k >= 0, k < n, z3.Select(dm.data, k))), node)
+    r = ex.fresh("sel_min" if is_min else "sel_max", R if dv.elem == "real" else I)
+    b = z3.Select(dv.data, k)
+    st.pc += [z3.ForAll([k], z3.Implies(z3.And(k >= 0, k < n, z3.Select(dm.data, k)), (r <= b) if is_min else (r >= b))),
+              z3.Exists([k], z3.And(k >= 0, k < n, z3.Select(dm.data, k), b == r))]
+    return r
+
+
+def _np_logical_and(ex, st, args, kw, node):
+    return ex.map2(st, args[0], args[1], lambda x, y: z3.And(x, y), node, elem="bool")
+
+
+def _np_where1(ex, st, args, kw, node):
+    """np.where(cond) with one argument: tuple with the increasing array of the indices where cond holds (A-NP-WHERE)."""
+    if len(args) != 1:
+        return _np_where(ex, st, args, kw, node)
+    d = ex.arr(st, args[0])
+    if d.elem != "bool" or d.rank != 1:
+        raise Undecided("np.where(cond) of non-bool")
+    n = d.shape[0]
+    cnt = ex.fresh("n_where", I)
+    idx = ex.fresh("where_idx", z3.ArraySort(I, I))
+    t, u, k = z3.Ints("t!w u!w k!w")
+    st.pc += [cnt >= 0,
+              z3.ForAll([t], z3.Implies(z3.And(t >= 0, t < cnt), z3.And(idx[t] >= 0, idx[t] < n, z3.Select(d.data, idx[t])))),
+              z3.ForAll([t, u], z3.Implies(z3.And(t >= 0, t < u, u < cnt), idx[t] < idx[u])),
+              z3.ForAll([k], z3.Implies(z3.And(k >= 0, k < n, z3.Select(d.data, k)), z3.Exists([t], z3.And(t >= 0, t < cnt, idx[t] == k))))]
+    return Tup((ex.alloc_arr(st, (cnt,), idx, "int", "fresh", tag="where"),))
+
+
+def _np_arange(ex, st, args, kw, node):
+    if len(args) != 1 or kw:
+        raise Undecided("np.arange with start/step")
+    n = as_int(args[0])
+    return ex.alloc_arr(st, (n,), ex.lam1(lambda i: i), "int", "fresh", tag="arange")
 
 
 def compress_rows(ex, st, v, mask, node):
@@ -508,7 +572,8 @@ NP = ModV("np", {
     "empty": _np_alloc("empty"), "zeros": _np_alloc("zeros"), "ones": _np_alloc("ones"),
     "empty_like": _np_like("empty_like"), "zeros_like": _np_like("zeros_like"), "ones_like": _np_like("ones_like"),
     "full_like": _np_like("full_like"),
-    "array": FuncV(_np_array, "np.array"), "where": FuncV(_np_where, "np.where"),
+    "array": FuncV(_np_array, "np.array"), "where": FuncV(_np_where1, "np.where"),
+    "logical_and": FuncV(_np_logical_and, "np.logical_and"), "arange": FuncV(_np_arange, "np.arange"),
     "sum": _reduce(SUM), "mean": _reduce(MEAN), "max": _np_ext(False), "min": _np_ext(True),
     "argmin": _np_argext(ARGMIN), "argmax": _np_argext(ARGMAX),
     "nan": None,
